@@ -33,11 +33,15 @@ structure Frame where
   done : List Arg            -- arguments already processed (raw, pre-expansion if needed)
 deriving Repr
 
+/-- `MacroExpander.no_expand`: one entry per stream, `some name` for the replacement list of the macro `name`, `none`
+    (Python's `None`, which equals no token spelling) for the outermost stream and for an argument being pre-expanded -/
+abbrev NoExp := List (Option String)
+
 /-- the state of the expander: `parser_stack` (head = top), `no_expand` (head = last), suspended loops,
     and the value a nested `expand` call has just returned (if any) -/
 structure MS where
   stack : List Helper
-  noExp : List String
+  noExp : NoExp
   frames : List Frame
   ret : Option (List Tok)
 deriving Repr
@@ -48,13 +52,13 @@ inductive Out
   | err (e : Err)
 deriving Repr
 
-/-- parameters of the machine: the nesting limit (`MacroExpander.max_level`), and a switch used only to *classify*
-    deviations from the specification: `adv = false` is the code as it is (`ExpanderHelper.splice` leaves the read
-    position **before** the spliced-in tokens, which are therefore scanned again); `adv = true` is what the method's
-    docstring says ("advancing pos to end of insertion") -/
+/-- parameters of the machine: the nesting limit (`MacroExpander.max_level`), and a switch that is `true` for the code
+    (`ExpanderHelper.splice` "advancing pos to end of insertion"); `adv = false` is the machine before the repair of
+    finding D11 (`splice` left the read position **before** the spliced-in tokens, which were therefore scanned again) and
+    is kept only to state what the repair changed (`C03.D11_regression`) -/
 structure Cfg where
   lim : Nat
-  adv : Bool := false
+  adv : Bool := true
 deriving Repr, DecidableEq
 
 def filterSome (l : List (Option Tok)) : List Tok := l.filterMap id
@@ -73,7 +77,7 @@ def zeroTok : Tok := ⟨.num, "0", false, true⟩
 def paint (t : Tok) : Tok := { t with expandable := false }
 
 /-- the caller of an `expand` whose loop ended with `EndofParse`: result = the top stream without holes -/
-def eopState (top : Helper) (rest : List Helper) (ne : List String) (frames : List Frame) : MS :=
+def eopState (top : Helper) (rest : List Helper) (ne : NoExp) (frames : List Frame) : MS :=
   ⟨rest, ne.tail, frames, some (filterSome top.toks)⟩
 
 /-- `MacroExpandOverflow` caught by the innermost `expand`: `self.__init__(platform)`, return `[0]` -/
@@ -81,10 +85,10 @@ def overflowState (frames : List Frame) : MS := ⟨[], [], frames, some [zeroTok
 
 /-- result of `while self.parser_stack[-1].eol(): self.pop()` -/
 inductive Popped
-  | ok (top : Helper) (rest : List Helper) (ne : List String)
-  | eop (top : Helper) (rest : List Helper) (ne : List String)   -- `pop()` raised EndofParse in this state
+  | ok (top : Helper) (rest : List Helper) (ne : NoExp)
+  | eop (top : Helper) (rest : List Helper) (ne : NoExp)   -- `pop()` raised EndofParse in this state
 
-def popAll (adv : Bool) (top : Helper) (rest : List Helper) (ne : List String) : Popped :=
+def popAll (adv : Bool) (top : Helper) (rest : List Helper) (ne : NoExp) : Popped :=
   if top.eol then
     match rest with
     | [] => .eop top [] ne
@@ -99,12 +103,12 @@ def peekDown : List Helper → Option Tok
     else (h.toks[h.pos]?).join
 
 inductive Consumed
-  | ok (t : Tok) (top : Helper) (rest : List Helper) (ne : List String)
-  | eop (top : Helper) (rest : List Helper) (ne : List String)
+  | ok (t : Tok) (top : Helper) (rest : List Helper) (ne : NoExp)
+  | eop (top : Helper) (rest : List Helper) (ne : NoExp)
   | bad (e : Err)
 
 /-- `MacroExpander.consume_tok` -/
-def consume (adv : Bool) (top : Helper) (rest : List Helper) (ne : List String) : Consumed :=
+def consume (adv : Bool) (top : Helper) (rest : List Helper) (ne : NoExp) : Consumed :=
   match popAll adv top rest ne with
   | .eop t r n => .eop t r n
   | .ok t r n =>
@@ -113,18 +117,18 @@ def consume (adv : Bool) (top : Helper) (rest : List Helper) (ne : List String) 
     | _ => .bad .type_
 
 /-- `MacroExpander.replace_tok` followed by `continue` -/
-def replaceTop (adv : Bool) (top : Helper) (rest : List Helper) (ne : List String) (frames : List Frame) (x : Tok) : Out :=
+def replaceTop (adv : Bool) (top : Helper) (rest : List Helper) (ne : NoExp) (frames : List Frame) (x : Tok) : Out :=
   match popAll adv top rest ne with
   | .eop t r n => .cont (eopState t r n frames)
   | .ok t r n => .cont ⟨{ t with toks := t.toks.set t.pos (some x), pos := t.pos + 1 } :: r, n, frames, none⟩
 
 inductive Collected
-  | ok (args : List (List Tok)) (top : Helper) (rest : List Helper) (ne : List String)
-  | eop (top : Helper) (rest : List Helper) (ne : List String)
+  | ok (args : List (List Tok)) (top : Helper) (rest : List Helper) (ne : NoExp)
+  | eop (top : Helper) (rest : List Helper) (ne : NoExp)
   | bad (e : Err)
 
 /-- the argument-collection loop of `expand` (the opening parenthesis has been consumed) -/
-def collectArgs (adv : Bool) : Nat → Helper → List Helper → List String → List (List Tok) → List Tok → Nat → Collected
+def collectArgs (adv : Bool) : Nat → Helper → List Helper → NoExp → List (List Tok) → List Tok → Nat → Collected
   | 0, _, _, _, _, _, _ => .bad (.other "fuel")
   | f + 1, top, rest, ne, args, cur, depth =>
     match consume adv top rest ne with
@@ -144,65 +148,71 @@ def totalToks (st : List Helper) : Nat := st.foldl (fun n h => n + h.toks.length
 
 def commaTok : Tok := ⟨.punct, ",", false, true⟩
 
-/-- fold the trailing arguments of a variadic macro into one, separated by commas -/
-def foldVariadic (np : Nat) (inputArgs : List Arg) : Except Err (List Arg) :=
+/-- fold the trailing arguments of a variadic macro into one, separated by commas; an argument that was not
+    pre-expanded contributes its raw tokens to the folded expansion (`input_args[idx][-1]`) -/
+def foldVariadic (np : Nat) (inputArgs : List Arg) : List Arg :=
   let extra := inputArgs.drop (np - 1)
-  let rec go : List Arg → List Tok → List Tok → Except Err (List Tok × List Tok)
-    | [], raw, exp => .ok (raw, exp)
-    | [a], raw, exp => match a.exp with
-      | some e => .ok (raw ++ a.raw, exp ++ e)
-      | none => .error .index
-    | a :: b :: r, raw, exp => match a.exp with
-      | some e => go (b :: r) (raw ++ a.raw ++ [commaTok]) (exp ++ e ++ [commaTok])
-      | none => .error .index
-  match go extra [] [] with
-  | .ok (raw, exp) => .ok (inputArgs.take (np - 1) ++ [⟨raw, some exp⟩])
-  | .error e => .error e
+  let rec go : List Arg → List Tok → List Tok → List Tok × List Tok
+    | [], raw, exp => (raw, exp)
+    | [a], raw, exp => (raw ++ a.raw, exp ++ a.exp.getD a.raw)
+    | a :: b :: r, raw, exp => go (b :: r) (raw ++ a.raw ++ [commaTok]) (exp ++ a.exp.getD a.raw ++ [commaTok])
+  let re := go extra [] []
+  inputArgs.take (np - 1) ++ [⟨re.1, some re.2⟩]
 
-/-- the `#` / `##` pass of `MacroFunction.replace` (only run when `has_strcat`) -/
-def strcatPass (params : List String) (inputArgs : List Arg) : Nat → List Tok → List Tok → Bool → Except Err (List Tok)
-  | 0, _, res, _ => .ok res
-  | _ + 1, [], res, _ => .ok res
-  | fuel + 1, tok :: rest', res, lastCat =>
+/-- `MacroFunction._parameter_index`: only an identifier names a parameter -/
+def paramIdx (params : List String) (t : Tok) : Option Nat :=
+  if t.kind == .ident then params.idxOf? t.text else none
+
+/-- the `#` / `##` pass of `MacroFunction.replace` (only run when `has_strcat`).  The result holds `(token, is_arg)` pairs:
+    `is_arg` marks what `#`/`##` produced from the arguments (final, never examined for parameter names again).  `lastCat`: the
+    last result token was produced by `#`/`##`; `pm`: the previous `##` joined two empty operands (its result is a placemarker,
+    nothing was appended); `pmw`: `prev_white` of the left operand of the last `##` -/
+def strcatPass (params : List String) (inputArgs : List Arg) : Nat → List Tok → List (Tok × Bool) → Bool → Bool → Bool → Except Err (List (Tok × Bool))
+  | 0, _, res, _, _, _ => .ok res
+  | _ + 1, [], res, _, _, _ => .ok res
+  | fuel + 1, tok :: rest', res, lastCat, pm, pmw =>
     if tok.text == "##" then
-      match res.getLast? with
-      | none => .error .index
-      | some last0 =>
-        let res0 := res.dropLast
-        let prevWhite := last0.pw
+      -- left operand: (its tokens, the result list without it, its prev_white)
+      let leftE : Except Err (List Tok × List (Tok × Bool) × Bool) :=
+        if pm then .ok ([], res, pmw)
+        else
+          match res.getLast? with
+          | none => .error .index
+          | some (last0, _) =>
+            if !lastCat then
+              match paramIdx params last0 with
+              | some i => match inputArgs[i]? with | some a => .ok (a.raw, res.dropLast, last0.pw) | none => .error .index
+              | none => .ok ([last0], res.dropLast, last0.pw)
+            else .ok ([last0], res.dropLast, last0.pw)
+      match leftE with
+      | .error e => .error e
+      | .ok (last, res0, prevWhite) =>
         match rest' with
         | [] => .error .index
         | nexttok0 :: rest'' =>
-          let lastE : Except Err (List Tok) :=
-            if !lastCat then
-              match params.idxOf? last0.text with
-              | some i => match inputArgs[i]? with | some a => .ok a.raw | none => .error .index
-              | none => .ok [last0]
-            else .ok [last0]
           let nextE : Except Err (List Tok) :=
-            match params.idxOf? nexttok0.text with
+            match paramIdx params nexttok0 with
             | some i => match inputArgs[i]? with | some a => .ok a.raw | none => .error .index
             | none => .ok [nexttok0]
-          match lastE, nextE with
-          | .error e, _ => .error e
-          | _, .error e => .error e
-          | .ok last, .ok next =>
-            match last.getLast? with
-            | some ll =>
-              match next with
-              | [] => .error .index
-              | nf :: nrest =>
+          match nextE with
+          | .error e => .error e
+          | .ok next =>
+            let toaddE : Except Err (List Tok) :=
+              match last.getLast?, next with
+              | some ll, nf :: nrest =>
                 match tokenizeOne (ll.text ++ nf.text).toList false with
                 | none => .error (.parse "Invalid concatenation")
-                | some (t, _) =>
-                  let toadd := fixpw (last.dropLast ++ [{ t with pw := ll.pw }] ++ nrest) prevWhite
-                  strcatPass params inputArgs fuel rest'' (res0 ++ toadd) true
-            | none => strcatPass params inputArgs fuel rest'' (res0 ++ next) true
+                | some (t, _) => .ok (last.dropLast ++ [{ t with pw := ll.pw }] ++ nrest)
+              | _, _ => .ok (last ++ next)        -- an empty operand is a placemarker
+            match toaddE with
+            | .error e => .error e
+            | .ok toadd =>
+              strcatPass params inputArgs fuel rest'' (res0 ++ (fixpw toadd prevWhite).map (·, true)) true toadd.isEmpty prevWhite
     else if tok.text == "#" then
       match rest' with
       | [] => .error (.parse "# at end")
       | nexttok :: rest'' =>
-        match params.idxOf? nexttok.text with
+        match paramIdx params nexttok with
         | none => .error (.parse "# not followed by argument")
         | some i =>
           match inputArgs[i]? with
@@ -210,14 +220,14 @@ def strcatPass (params : List String) (inputArgs : List Arg) : Nat → List Tok 
           | some a =>
             match stringify a.raw with
             | none => .error .type_
-            | some t => strcatPass params inputArgs fuel rest'' (res ++ [t]) true
-    else strcatPass params inputArgs fuel rest' (res ++ [tok]) false
+            | some t => strcatPass params inputArgs fuel rest'' (res ++ [(t, true)]) true false pmw
+    else strcatPass params inputArgs fuel rest' (res ++ [(tok, false)]) false false pmw
 
-/-- the final substitution loop of `MacroFunction.replace` -/
-def substArgs (params : List String) (inputArgs : List Arg) : List Tok → Except Err (List Tok)
+/-- the final substitution loop of `MacroFunction.replace`: tokens marked `is_arg` are copied -/
+def substArgs (params : List String) (inputArgs : List Arg) : List (Tok × Bool) → Except Err (List Tok)
   | [] => .ok []
-  | token :: rest =>
-    match params.idxOf? token.text with
+  | (token, isArg) :: rest =>
+    match (if isArg then none else paramIdx params token) with
     | some i =>
       match inputArgs[i]? with
       | none => .error .index
@@ -236,13 +246,11 @@ def substArgs (params : List String) (inputArgs : List Arg) : List Tok → Excep
 /-- `MacroFunction.replace(input_args)` -/
 def replaceFn (m : Macro) (inputArgs : List Arg) : Except Err (List Tok) :=
   let params := m.args.getD []
-  match (if m.variadic then foldVariadic params.length inputArgs else .ok inputArgs) with
+  let ia := if m.variadic then foldVariadic params.length inputArgs else inputArgs
+  match (if m.hasStrcat then strcatPass params ia (m.replacement.length + 1) m.replacement [] false false false
+         else .ok (m.replacement.map (·, false))) with
   | .error e => .error e
-  | .ok ia =>
-    match (if m.hasStrcat then strcatPass params ia (m.replacement.length + 1) m.replacement [] false
-           else .ok m.replacement) with
-    | .error e => .error e
-    | .ok res => substArgs params ia res
+  | .ok res => substArgs params ia res
 
 /-! ## the loop -/
 
@@ -254,12 +262,12 @@ def processArgs (c : Cfg) (pw : Bool) (m : Macro) : List (List Tok) → List Arg
     | .error e => .err e
     | .ok repl =>
       if s.stack.length + 1 ≥ c.lim then .cont (overflowState s.frames)
-      else .cont ⟨⟨(fixpw repl pw).map some, 0, false⟩ :: s.stack, m.name :: s.noExp, s.frames, none⟩
+      else .cont ⟨⟨(fixpw repl pw).map some, 0, false⟩ :: s.stack, some m.name :: s.noExp, s.frames, none⟩
   | a :: rest, done, s =>
     if done.length ≥ m.needsExp.length || m.needsExp.getD done.length true then
       if s.stack.length ≥ c.lim then .cont (overflowState s.frames)
       else if a.isEmpty then processArgs c pw m rest (done ++ [⟨a, some a⟩]) s
-      else .cont ⟨⟨a.map some, 0, true⟩ :: s.stack, "None" :: s.noExp, ⟨pw, m, a, rest, done⟩ :: s.frames, none⟩
+      else .cont ⟨⟨a.map some, 0, true⟩ :: s.stack, none :: s.noExp, ⟨pw, m, a, rest, done⟩ :: s.frames, none⟩
     else processArgs c pw m rest (done ++ [⟨a, none⟩]) s
 
 def isDefined (tbl : Table) (n : String) : String := if (tbl.get n).isSome then "1" else "0"
@@ -326,7 +334,7 @@ def step (c : Cfg) (tbl : Table) (s : MS) : Out :=
           if t.kind != .ident then .cont ⟨{ top with pos := top.pos + 1 } :: rest, s.noExp, s.frames, none⟩
           else if t.text == "defined" then
             stepDefined c.adv tbl s { top with toks := top.toks.set top.pos none, pos := top.pos + 1 } rest
-          else if !t.expandable || s.noExp.contains t.text then
+          else if !t.expandable || s.noExp.contains (some t.text) then
             .cont ⟨{ top with toks := top.toks.set top.pos (some (paint t)), pos := top.pos + 1 } :: rest, s.noExp, s.frames, none⟩
           else
             match tbl.get t.text with
@@ -338,7 +346,7 @@ def step (c : Cfg) (tbl : Table) (s : MS) : Out :=
                 let child : Helper := ⟨(fixpw m.replacement t.pw).map some, 0, false⟩
                 let top' : Helper := { top with toks := top.toks.set top.pos none, pos := top.pos + 1 }
                 if rest.length + 2 ≥ c.lim then .cont (overflowState s.frames)
-                else .cont ⟨child :: top' :: rest, m.name :: s.noExp, s.frames, none⟩
+                else .cont ⟨child :: top' :: rest, some m.name :: s.noExp, s.frames, none⟩
         | _ => .cont ⟨{ top with pos := top.pos + 1 } :: rest, s.noExp, s.frames, none⟩
 
 inductive XR
@@ -356,7 +364,7 @@ def run (c : Cfg) (tbl : Table) : Nat → MS → XR
     | .err e => .error e
 
 /-- the state after `expand(tokens)` has pushed its stream -/
-def initState (ts : List Tok) : MS := ⟨[⟨ts.map some, 0, false⟩], ["None"], [], none⟩
+def initState (ts : List Tok) : MS := ⟨[⟨ts.map some, 0, false⟩], [none], [], none⟩
 
 /-- `MacroExpander(platform).expand(tokens)` with parameters `c` and `fuel` loop iterations -/
 def expandWith (c : Cfg) (tbl : Table) (fuel : Nat) (ts : List Tok) : XR :=
@@ -383,7 +391,7 @@ def fuelFor (tbl : Table) (ts : List Tok) : Nat :=
   ts.length * Cb (bodyMax tbl) (tbl.length + 1) + 2 + 4000000
 
 /-- the code as it is: generated nesting limit, `splice` as implemented -/
-def realCfg : Cfg := { lim := CbiVerif.Gen.maxLevel, adv := false }
+def realCfg : Cfg := { lim := CbiVerif.Gen.maxLevel, adv := true }
 
 /-- **the model of `MacroExpander(platform).expand(tokens)`** -/
 def cbiExpand (tbl : Table) (ts : List Tok) : XR :=
